@@ -210,6 +210,13 @@ def numba_newton_raphson(
         if next_iterate > bounds_to_check[1]:
             next_iterate = (bounds_to_check[1] - iterates[2]) * 0.5 + iterates[2]
 
+        if root_bounded and next_iterate == iterates[2] and func_evals[2] != 0.0:
+            # The current iterate is the end of the bracket that the step wants to
+            # cross, so halving the distance to that end does not move the iterate.
+            # Take a bisection step instead (otherwise the unchanged iterate would
+            # be mistaken for convergence below).
+            next_iterate = (root_bounds[0] + root_bounds[1]) / 2
+
         # Roll the iterates, make the last entry the latest estimate
         iterates.append(iterates.pop(0))
         iterates[2] = next_iterate
